@@ -747,6 +747,34 @@ impl BuildJob<'_> {
             log_err!("{:?}: zap_deps2: {}", t, e);
             rv = EXIT_BUILD_JOB_ERROR;
         }
+        if rv == EXIT_SUCCESS {
+            // The script has finished successfully although something it asked for with
+            // redo-ifchange is marked failed -- or still marked "started": the redo-ifchange
+            // that was building it died (killed) and could not say so.  Either way this
+            // target was built without it, and is out of date until it has been rebuilt
+            // with it: same mark as redo-ifchange leaves when its request fails.
+            let unfinished = sf.deps(ptx).map(|deps| {
+                deps.iter().any(|(mode, d)| {
+                    matches!(mode, state::DepMode::Modified)
+                        && d.id() != sf.id()
+                        && d.failed_runid.is_some()
+                })
+            });
+            let marked = unfinished.and_then(|unfinished| {
+                if !unfinished {
+                    return Ok(());
+                }
+                sf.add_dep(ptx, state::DepMode::Modified, state::always_filename())?;
+                let mut always = state::File::from_name(ptx, state::always_filename(), true)?;
+                always.set_stamp(state::Stamp::MISSING);
+                always.set_changed(ptx.state().env());
+                always.save(ptx)
+            });
+            if let Err(e) = marked {
+                log_err!("{:?}: dependencies: {}", t, e);
+                rv = EXIT_BUILD_JOB_ERROR;
+            }
+        }
         if let Err(e) = sf.save(ptx) {
             log_err!("{:?}: set failed: {}", t, e);
             rv = EXIT_BUILD_JOB_ERROR;
